@@ -176,7 +176,7 @@ def _mirjalili(ctx, col):
     # event space: full cross product of demands and valid splits
     ev = I.attrs.get("_random_event_space")
     d = fresh("dim")
-    splits = ("app", "itertools.product", (("star", ("lam", d, "dim", ("app", "range", (T_add(Q, ONE),)))),))
+    splits = ("app", "itertools.product", (("star", ("app", "listcomp", (m, ("lam", d, "dim", ("app", "range", (T_add(Q, ONE),)))))),))
     # the comprehension ranges over range(max_useful_life): one factor per age class
     valid = ("elem", splits, (("app", "cmpLtE", (("app", "sum", (splits, ("kw", "axis", ONE))), Q)),))
     demands = ("app", "reshape", (("app", "arange", (T_add(D, ONE),)), ONE, K(-1)))
